@@ -479,7 +479,9 @@ def invalidations(d, rng):
             m["mappings"][mi]["keys"][ki]["map"][ei] = (fk(k) if fk else k, fv(v) if fv else v)
         for kind, vals in [
             ("key-name-unknown", None),
-            ("key-note-name", [b"H1", b"E#1", b"B#2", b"C9", b"C-3", b"", b"c", b"C#", b"60.0", b"0x3c", b" 60", b"6_0", b"G#8", b"9223372036854775808"]),
+            ("key-note-name", [b"H1", b"E#1", b"B#2", b"C9", b"C-3", b"", b"c", b"C#", b"60.0", b"0x3c", b" 60", b"6_0", b"G#8", b"9223372036854775808",
+                               # octaves of more than one digit (the 8-bit note arithmetic wraps: bands of them would land inside 0..127)
+                               b"e19", b"c20", b"a29", b"c40", b"c-14", b"d#-13", b"g#-24", b"c-35", b"c03", b"c00", b"c-00", b"c10", b"c-10", b"f#127", b"c256"]),
             ("key-note-range", [b"128", b"-1", b"1000", b"-0128", b"9223372036854775807"]),
             ("key-offset-range", [b"60,16", b"C3,-1", b"0,255", b"60,9223372036854775807"]),
             ("key-offset-text", [b"60,a", b"60,", b"C3, 1", b"60,1.0", b"60,0x1", b"60,99999999999999999999"]),
